@@ -31,6 +31,15 @@ func convertReflectValueToType(rv reflect.Value, rt reflect.Type) (reflect.Value
 		return rv, nil
 	}
 	if rv.Type().ConvertibleTo(rt) {
+		// a slice converts to an array, or to a pointer to one, only when it is long enough: Convert panics otherwise
+		if rv.Kind() == reflect.Slice {
+			if rt.Kind() == reflect.Array && rv.Len() < rt.Len() {
+				return rv, errInvalidTypeConversion
+			}
+			if rt.Kind() == reflect.Ptr && rt.Elem().Kind() == reflect.Array && rv.Len() < rt.Elem().Len() {
+				return rv, errInvalidTypeConversion
+			}
+		}
 		// if reflect can covert, do that conversion and return
 		return rv.Convert(rt), nil
 	}
